@@ -165,6 +165,9 @@ EDITS = {
     "additive_error": (lambda pm, m: pm.set_additive_error_model(m), {"ERROR", "SIGMA", "THETA"}),
     "remove_iiv": (lambda pm, m: pm.remove_iiv(m, m.random_variables.iiv.names[-1]), {"PK", "PRED", "OMEGA", "ABBREVIATED"}),
     "statement": (lambda pm, m: _change_statement(m), {"PK", "PRED"}),
+    # used in sequences on the models with block IFs (see SEQ_EDITS)
+    "rename_blockvar": (lambda pm, m: pm.rename_symbols(m, {"TVO": "TVOL"}), {"PK", "PRED"}),
+    "lag_time": (lambda pm, m: pm.add_lag_time(m), {"PK", "THETA"}),
 }
 
 
@@ -195,6 +198,16 @@ def _change_statement(m):
     return m.replace(statements=Statements(sts)).update_source()
 
 
+CODE_MODELS = {
+    "blockif2": {"PK": "$PK\n; typical values\nTCL = THETA(1)\nTVO = THETA(2)\nIF (WGT.GT.70) THEN\n  TCL = TCL*1.2\n  TVO = TVO*1.1\n"
+                       "END IF\n; individual parameters\nCL = TCL*EXP(ETA(1))\n\"  ICALL_SEEN = 1\nV = TVO*EXP(ETA(2))\n; scaling\nS1 = V\n"},
+    "blockif3": {"PK": "$PK\nTCL = THETA(1)\nTVO = THETA(2)\nIF (APGR.LT.5) THEN\n  TCL = TCL*0.8\n  TVO = TVO*0.9\nELSE\n  TVO = TVO*1.05\nEND IF\n"
+                       "\"  FIRST_SEEN = 1\n; individual parameters\nCL = TCL*EXP(ETA(1))\nV = TVO*EXP(ETA(2))\nS1 = V\n",
+                 "ERROR": "$ERROR\n; residual error\nIPRED = F\nW = IPRED\n; the observation\nY = IPRED + W*EPS(1)\n"},
+}
+SEQ_EDITS = ["statement", "rename_blockvar", "lag_time", "remove_iiv", "additive_error", "add_theta"]
+
+
 def corpus():
     import os
 
@@ -207,6 +220,8 @@ def corpus():
         out[f"combo{i}"] = ("text", "".join(COMBOS[i].get(k, tt) for k, tt in BASE))
     for i in (0, 1):
         out[f"prerec{i}"] = ("text", PRE_RECORDS[i] + "".join(tt for _, tt in BASE))
+    for nm, sub in CODE_MODELS.items():
+        out[nm] = ("text", "".join(sub.get(k, tt) for k, tt in BASE))
     return out
 
 
@@ -226,7 +241,13 @@ def shards(tier):
         out.append(("streams", st[i:i + 12]))
     for name in corpus():
         for e in EDITS:
+            if e in ("rename_blockvar", "lag_time") and name not in CODE_MODELS:
+                continue
             out.append(("edit", name, e))
+    # two edits in sequence on the same object (the second works on what the first left in the record caches)
+    for name in CODE_MODELS:
+        for a, b in itertools.permutations(SEQ_EDITS, 2):
+            out.append(("edit", name, a + "+" + b))
     out.sort(key=lambda s: 0 if s[0] != "texts" else 1)
     return out
 
@@ -325,16 +346,20 @@ def run_shard(shard, tier):
         res["states"] += 1
         res["transitions"] += 1
         res["evaluations"] += 1
-        f, footprint = EDITS[e]
+        footprint = set()
         before = m.code
         try:
-            m2 = f(pm, m)
+            m2 = m
+            for part in e.split("+"):  # "a+b": two edits in sequence on the same object (no re-read in between)
+                f, fp = EDITS[part]
+                footprint |= set(fp)
+                m2 = f(pm, m2)
             after = m2.code
         except Exception as ex:
             note(f"edit-refused:{type(ex).__name__}")
             return res
     res["distinct_nontrivial"] += 1
-    fails = frame_check(before, after, footprint)
+    fails = frame_check(before, after, footprint) + comment_lines_check(before, after)
     note("ok" if not fails else "frame-violation")
     for d in fails[:10]:
         res["violations"].append({"kind": "edit", "model": name, "edit": e, "what": f"[{name}: {e}] {d}", "class": f"edit:{e}:{d[:40]}"})
@@ -374,6 +399,36 @@ def frame_check(before, after, footprint):
     return fails
 
 
+def comment_lines_check(before, after):
+    """inside the abbreviated-code records every comment-only line and every verbatim line of `before` occurs in `after`,
+    in the same order (they express no model component, so no edit may drop, duplicate or move them)"""
+    def special(code):
+        out = []
+        incode = False
+        for ln in code.splitlines():
+            st = ln.strip()
+            if st.startswith("$"):
+                incode = st[1:4].upper() in ("PK", "PK\n", "PRE", "ERR", "DES") or st[1:3].upper() == "PK"
+                continue
+            if incode and (st.startswith(";") or st.startswith('"')):
+                out.append(ln.rstrip())
+        return out
+
+    b, a = special(before), special(after)
+    fails = []
+    j = 0
+    for ln in b:
+        try:
+            j = a.index(ln, j) + 1
+        except ValueError:
+            fails.append(f"comment/verbatim line {ln!r} of a code record is " + ("moved" if ln in a else "lost") + " by the edit")
+    if not fails and len(a) > len(b):
+        extra = [ln for ln in a if a.count(ln) > b.count(ln)]
+        if extra:
+            fails.append(f"comment/verbatim line {extra[0]!r} of a code record is duplicated by the edit")
+    return fails[:3]
+
+
 def replay(w):
     import warnings
 
@@ -393,8 +448,13 @@ def replay(w):
             c2 = m.update_source().code
             return [] if c2 == w["text"] else ["update_source: " + _first_diff(w["text"], c2)]
         m = _corpus_model(corpus()[w["model"]])
-        f, footprint = EDITS[w["edit"]]
-        return frame_check(m.code, f(pm, m).code, footprint)
+        footprint = set()
+        m2 = m
+        for part in w["edit"].split("+"):
+            f, fp = EDITS[part]
+            footprint |= set(fp)
+            m2 = f(pm, m2)
+        return frame_check(m.code, m2.code, footprint) + comment_lines_check(m.code, m2.code)
 
 
 def classify(w):
